@@ -36,7 +36,7 @@ CASE_TIMEOUT = 300
 
 REQ = "(:requirements :typing :negative-preconditions :numeric-fluents)"
 TYPES = "(:types t1 - object t2 - t1 t3 - t2 t4 - t3)"  # four levels below object
-PRED = {"p": "(p ?a - t1)", "q": "(q ?a - t1 ?b - t2)", "r": "(r)"}
+PRED = {"p": "(p ?a - t1)", "q": "(q ?a - t1 ?b - t2)", "r": "(r)", "s0": "(s0 ?a - t2)"}   # s0: used by no action
 FUNC = {"f": "(f)"}
 CONST = {"k": "k - t1"}
 ACT = {
@@ -204,7 +204,7 @@ def check_case(case):
     want_vocab = {
         "types": ["object", "t1", "t2", "t3", "t4"],
         "constants": {"k": "t1"},
-        "predicates": {"p": [["?a", "t1"]], "q": [["?a", "t1"], ["?b", "t2"]], "r": []},
+        "predicates": {"p": [["?a", "t1"]], "q": [["?a", "t1"], ["?b", "t2"]], "r": [], "s0": [["?a", "t2"]]},
         "functions": {"f": []},
         "actions": {"a1": [["?x", "t1"]], "a2": [["?x", "t1"], ["?y", "t2"], ["?w", "t1"]]},
     }
@@ -315,4 +315,43 @@ def check_case(case):
                     return r
             r.outcome("ok")
     shutil.rmtree(d, ignore_errors=True)
+    if case.get("pindex") == 0 and "problem" in case.get("tags", []):
+        numeric_goals_only(r, case)
     return r
+
+
+def numeric_goals_only(r, case):
+    """a team whose goals are numeric conditions only (no goal literal anywhere): the combination, and its export and
+    re-parse, keep them"""
+    from pddl_plus_parser.multi_agent import MultiAgentDomainsConverter, MultiAgentProblemsConverter
+    from pddl_plus_parser.exporters import ProblemExporter
+    d = pathlib.Path(scratch_dir()) / f"c17_ng_{os.getpid()}"
+    shutil.rmtree(d, ignore_errors=True)
+    d.mkdir()
+    where = {k: (0, 1) for k in list(PRED) + list(FUNC) + list(CONST) + list(ACT)}
+    goals = ["(>= (f) 1)", "(<= (f) 2000000)"]
+    for ag in range(2):
+        (d / f"domain-ag{ag}.pddl").write_text(domain_file(where, ag))
+        (d / f"prob-ag{ag}.pddl").write_text(
+            f"(define (problem madp) (:domain mad)\n(:objects o1 - t1 o2 - t2)\n(:init (p o1) (= (f) 5))\n"
+            f"(:goal (and {goals[ag]} {goals[0] if ag else ''})))\n")
+    out = d / "out"
+    out.mkdir()
+    path = guard(lambda: MultiAgentDomainsConverter(d).export_combined_domain(add_dummy_actions=False, output_folder=out))
+    prob = guard(lambda: MultiAgentProblemsConverter(d, "prob").combine_problems(path)) if not isinstance(path, Raised) else path
+    ob = guard(observe_problem, prob) if not isinstance(prob, Raised) else prob
+    r.count("transitions")
+    want = sorted(["(>= (f) 1)", "(<= (f) 2000000)"])
+    if isinstance(ob, Raised) or sorted(set(ob["numgoals"])) != want or ob["goals"]:
+        r.fail("problem-union", f"numeric-goals-only team: combined goals {ob if isinstance(ob, Raised) else (ob['goals'], ob['numgoals'])}, "
+               f"expected the two numeric conditions {want}", want, str(ob)[:200], tags=["numeric-goals-only"])
+        shutil.rmtree(d, ignore_errors=True)
+        return
+    text = guard(lambda: ProblemExporter().extract_problem(prob))
+    re_ = guard(lambda: observe_problem(parse_problem(text, parse_domain(open(path).read())))) if not isinstance(text, Raised) else text
+    r.count("transitions")
+    if isinstance(re_, Raised) or sorted(set(re_["numgoals"])) != want:
+        r.fail("problem-roundtrip", f"numeric-goals-only team: the exported combined problem parses back with goals "
+               f"{re_ if isinstance(re_, Raised) else re_['numgoals']}, expected {want}; exported text:\n{str(text)[:600]}", want,
+               str(re_)[:200], tags=["numeric-goals-only"])
+    shutil.rmtree(d, ignore_errors=True)
